@@ -69,6 +69,9 @@ def run(ctx) -> None:
     ctx.rule("R2", "all other exits are constant non-zero; a None new version never reaches the gate; `test` has no write/VCS-mutation/hook effect")
     ctx.rule("R3", "gate content: parse with the pattern's engine, strict > under parse_version, uniqueness when requested")
     ctx.rule("R4", "parse_version_info (v2, v1) accepts only a full-length match")
+    ctx.rule("R5", "prerequisite: the comparator's order laws and PEP 440 segment rules (C16/R1-R4)")
+    from sa.report import run_prerequisite
+    run_prerequisite(ctx, "C16", ("R1", "R2", "R3", "R4"), "R5")
     gate = prog.function(GATE)
     n_gate = n_ann = n_eff = 0
     for root in ROOTS:
